@@ -239,3 +239,5 @@ M("c08-unlocked-idle-gate", "C08", A + "http11.py",
 M("c18-repr-under-pool-lock", "C18", A + "connection_pool.py",
   "        closing_connections = []\n\n        # First we handle cleaning up any connections that are closed,",
   "        closing_connections = []\n        logger = __import__(\"logging\").getLogger(\"httpcore.connection_pool\")\n        logger.debug(\"assignment pass on %r\", self)\n\n        # First we handle cleaning up any connections that are closed,", "C18.R9")
+M("c12-zero-stream-limit-applied", "C12", A + "http2.py", "            if new_max_streams and new_max_streams != self._max_streams:", "            if new_max_streams != self._max_streams:", "C12.R11")
+M("c07-socks-availability-on-proxy-scheme", "C07", A + "socks_proxy.py", "                and (self._remote_origin.scheme == b\"https\" or not self._http1)", "                and (self._proxy_origin.scheme == b\"https\" or not self._http1)", "C07.R11")
